@@ -126,9 +126,20 @@ func NewInterfaceCollection(
 	}
 }
 
+// absClean returns the absolute, cleaned form of an output path, so that the
+// same file written as a relative and as an absolute path is one file.
+func absClean(p *pathlib.Path) *pathlib.Path {
+	if !p.IsAbsolute() {
+		if cwd, err := os.Getwd(); err == nil {
+			p = pathlib.NewPath(cwd).JoinPath(p)
+		}
+	}
+	return p.Clean()
+}
+
 func (i *InterfaceCollection) Append(ctx context.Context, iface *config.Interface) error {
-	collectionFilepath := i.outFilePath.String()
-	interfaceFilepath := iface.Config.FilePath().String()
+	collectionFilepath := absClean(i.outFilePath).String()
+	interfaceFilepath := absClean(iface.Config.FilePath()).String()
 	log := zerolog.Ctx(ctx).With().
 		Str(logging.LogKeyInterface, iface.Name).
 		Str("collection-pkgname", i.outPkgName).
@@ -278,9 +289,10 @@ func (r *RootApp) Run() error {
 			filePath := ifaceConfig.FilePath().Clean()
 			ifaceLog.Info().Str("collection", filePath.String()).Msg("adding interface to collection")
 
-			_, ok := mockFileToInterfaces[filePath.String()]
+			fileKey := absClean(filePath).String()
+			_, ok := mockFileToInterfaces[fileKey]
 			if !ok {
-				mockFileToInterfaces[filePath.String()] = NewInterfaceCollection(
+				mockFileToInterfaces[fileKey] = NewInterfaceCollection(
 					iface.Pkg.PkgPath,
 					filePath,
 					iface.Pkg,
@@ -289,7 +301,7 @@ func (r *RootApp) Run() error {
 					*ifaceConfig.Formatter,
 				)
 			}
-			if err := mockFileToInterfaces[filePath.String()].Append(
+			if err := mockFileToInterfaces[fileKey].Append(
 				ctx,
 				config.NewInterface(
 					iface.Name,
